@@ -1,5 +1,5 @@
 """C02 - PASE admits only a peer that knows the passcode, only while a window is open."""
-from common import (mentions, false_edges_of_cmp, true_edges_of_cmp, closure_in, async_body, closure_arg_sites,
+from common import (bodies_of, mentions, false_edges_of_cmp, true_edges_of_cmp, closure_in, async_body, closure_arg_sites,
                     ok_return_bbs, variant_bbs, call_bbs, named_local, src_calls, src_fields, src_consts,
                     result_used, RESULT)
 from facts import AnchorLost, op_place, op_local
@@ -139,6 +139,13 @@ def check(R):
                      any(x[0] == 'call' and x[1] == WITH_STATE and x[2] == sites[0].bb for x in ss) and not [c for c in src_consts(ss) if c is not None],
                      'has_comm_window <= with_state(window closure)', f'sources {sorted(map(str, ss))[:6]}', co.where(sites[0].bb))
 
+    with R.clause('c2'):
+        p1 = [b for b in bodies_of(F, PR + '::handle_pasepake1') if SP + '::setup_verifier' in b.calls_summary]
+        R.floor('setup_verifier call in handle_pasepake1', len(p1), 1)
+        tsv = p1[0].calls(SP + '::setup_verifier')[0]
+        vs = prims.sources(p1[0], tsv.d['a'][2])
+        R.expect('P10', p1[0].fn, 'the verifier used at Pake1 is the currently open window\'s (read under the same state borrow)', PASE + '::comm_window' in src_calls(vs),
+                 'setup_verifier(.., &comm_window.verifier, ..)', f'verifier sources {sorted(map(str, vs))[:5]}: not the window returned by Pase::comm_window() at this point', p1[0].where(tsv.bb))
     # ---- d ---------------------------------------------------------------------
     with R.clause('d'):
         pass
@@ -191,6 +198,14 @@ def check(R):
         inc = rp.calls('core::num::<impl u8>::saturating_add')
         R.expect('P6', rp.fn, 'each failure increments the counter by exactly one',
                  len(inc) == 1 and inc[0].d['a'][1].get('k', {}).get('v') == 1, 'saturating_add(1)', 'counter increment is not saturating_add(1)')
+        incs = [i for i, j, s_ in rp.field_writes('pake_failures:sc::pase::CommWindow')]
+        wsome = set()
+        for t in rp.calls('utils::maybe::Maybe::as_opt_mut'):
+            wsome |= prims.track_result(F, rp, t).success
+        badi = prims.always_followed_by(rp, [e[1] for e in wsome], incs) if wsome and incs else ['missing']
+        R.expect('P3', rp.fn, 'with a window open every recorded failure increments the counter (no further condition)', not badi, 'window Some -> pake_failures += 1 on every path',
+                 'a path with an open window returns without counting the failure')
+        R.expect('P10', rp.fn, 'record_pake_failure takes no handshake identity to filter on', rp.argc == 3, f'{rp.argc - 1} parameters', f'{rp.argc - 1} parameters: the count can be made conditional on the caller')
         rev = named_local(rp, 'revoke')
         te = set()
         for l in rev:
